@@ -7,7 +7,7 @@
    avoids inf/inf.  Statement only; proof in Proofs/BetaFinalFl.v.                                                        *)
 From Coq Require Import ZArith Bool Reals.
 From Flocq Require Import Core.Core IEEE754.BinarySingleNaN.
-From RD Require Import Proofs.BetaFinalFl.
+From RD Require Import Proofs.BetaFinalFl Gen.FlProg.
 Open Scope R_scope.
 
 Theorem C03_beta_final_def : forall prec emax (Hp : Prec_gt_0 prec) (Hpe : Prec_lt_emax prec emax) switched (b w : binary_float prec emax),
@@ -32,5 +32,14 @@ Example C03_beta_final_binary32 : forall (switched : bool) (b w : binary_float 2
   is_finite (beta_final 24 128 eq_refl eq_refl switched b w) = true /\ 0 <= B2R (beta_final 24 128 eq_refl eq_refl switched b w) <= 1.
 Proof. exact (C03_beta_final_in_unit 24 128 eq_refl eq_refl). Qed.
 
+(* ---- tie to the source: the two quotients at the end of Beta::sample (beta.rs) as read off /repo on every run
+   (Gen/FlProg.v, tools/flprog.py) are the quotients of beta_final. *)
+Theorem C03_fl_source : forall prec emax (Hp : Prec_gt_0 prec) (Hpe : Prec_lt_emax prec emax) (b w : binary_float prec emax),
+  beta_final prec emax Hp Hpe true b w = src_beta_final_switched prec emax Hp Hpe b w /\
+  beta_final prec emax Hp Hpe false b w =
+    match w with B754_infinity false => Bone | _ => src_beta_final_plain prec emax Hp Hpe w b end.
+Proof. intros. split; reflexivity. Qed.
+
 Print Assumptions C03_beta_final_def.
 Print Assumptions C03_beta_final_in_unit.
+Print Assumptions C03_fl_source.
